@@ -116,6 +116,11 @@ def build_population(rng):
                 dsid = "x-unregistered%s--%s" % (suffix, sid.split("--", 1)[1])
                 items.append({"type": "x-unregistered" + suffix, "id": dsid, "created": "2020-01-01T00:00:00.000Z", "modified": "2020-01-01T00:00:00.000Z",
                               "name": "dotted type name", "labels": ["l1"], "confidence": 50})
+        if k == 0:
+            # ... and a name which looks like a timestamp written with other digits than ASCII ones: a string like any other
+            lookalike = "\uff12\uff10\uff12\uff10-01-01T00:00:00Z" if rng.random() < 0.5 else "2020-01-01T00:00:0\u0660Z"
+            items.append({"type": "x-unregistered", "id": g.new_id("x-unregistered"), "created": "2020-01-01T00:00:00.000Z", "modified": "2020-01-01T00:00:00.000Z",
+                          "name": lookalike, "labels": ["l1"], "confidence": 1})
         if k == 0 and rng.random() < 0.6:
             # ... and one without `modified` (a flat file in the same type directory), stored and asked for first
             items.insert(0, {"type": "x-unregistered", "id": g.new_id("x-unregistered"), "name": "unversioned", "labels": ["l1"], "stixmon_first": True})
@@ -327,6 +332,9 @@ def gen_own_filter(model):
 
 
 def classify(filters, missing, extra, store):
+    if any(f[0] == "name" and (tsor.text_us(f[2]) is not None if isinstance(f[2], str) else isinstance(f[2], (list, tuple)) and any(isinstance(x, str) and tsor.text_us(x) is not None for x in f[2]))
+           for f in filters):
+        return "string-resembling-a-timestamp-compared-as-instant"
     if any(f[0] in TS_PROPS and f[1] == "in" for f in filters) and missing and not extra:
         if any(f[0] in TS_PROPS and f[1] == "in" and isinstance(f[2], (list, tuple)) and any(isinstance(x, str) and tsor.text_us(x) is None for x in f[2]) for f in filters):
             return "in-list-timestamps-among-other-strings"
@@ -374,8 +382,10 @@ def wl_random(ctx, rng, i):
             if "." in j["type"]:
                 stem_t, stem_i = j["type"].split(".", 1)[0], j["id"].replace(j["type"], j["type"].split(".", 1)[0], 1)
                 aimed += [[("type", "!=", stem_t)], [("id", "!=", stem_i)], [("type", "=", stem_t)], [("type", "in", [stem_t, "identity"])], [("id", "=", stem_i)]]
+        if any(j.get("name", "").endswith("Z") and not j["name"].isascii() for j in model.items if isinstance(j.get("name"), str)):
+            aimed += [[("name", "=", "2020-01-01T00:00:00Z")], [("name", "!=", "2020-01-01T00:00:00Z")], [("name", "in", ["2020-01-01T00:00:00Z", "2020-01-01T00:00:00.000Z"])]]
         rng.shuffle(aimed)
-        for q in range(12 + min(3, len(aimed))):
+        for q in range(12 + min(4, len(aimed))):
             filters = [gen_filter(rng, model) for _ in range(rng.choice([1, 1, 2, 2, 3]))] if q < 12 else aimed[q - 12]
             try:
                 exp = evaluate(filters, model.items, TS_PROPS)
